@@ -15,6 +15,8 @@ import (
 	"fmt"
 	"reflect"
 	"strings"
+	"sync/atomic"
+	"time"
 
 	"github.com/M2MGateway/go-smpp/coding"
 	"github.com/M2MGateway/go-smpp/coding/gsm7bit"
@@ -28,8 +30,10 @@ func init() {
 
 // ---------------------------------------------------------------- accessors of one PDU
 type accResult struct {
-	Term   string   // Gallina [outcome acc_obs] term of what was observed ("Panic" if a modelled accessor panicked)
-	Panics []string // "accessor: message" for every operation that panicked
+	Term    string   // Gallina [outcome acc_obs] term of what was observed ("Panic" if a modelled accessor panicked)
+	Panics  []string // "accessor: message" for every operation that panicked
+	Hung    string   // the operation that did not return, if any
+	Skipped bool     // not run: the run had already met maxStalls calls that never returned
 }
 
 func coqConcat(h *pdu.ConcatenatedHeader) string {
@@ -51,13 +55,34 @@ var typeIDcache map[reflect.Type]uint32
 
 // runAccessors runs every read-only operation on p (a pointer to a registered
 // PDU struct) under recover().
+// runAccessors: every read-only operation on p, on its own goroutine under the watchdog (c11_watch.go):
+// an operation that does not return is reported as such (Panics gets "<operation>: did not return",
+// Hung names it) and the rest of the operations on this PDU is skipped.
 func runAccessors(p interface{}) accResult {
 	if typeIDcache == nil {
 		typeIDcache = typeIDs()
 	}
+	if stallsExhausted() {
+		return accResult{Term: "Panic", Skipped: true}
+	}
+	var progress int64
+	var curOp atomic.Value
+	curOp.Store("")
+	var res accResult
+	hung, _, waited := stallWatch(&progress, func() { res = runAccessorsInner(p, &progress, &curOp) })
+	if hung {
+		op := curOp.Load().(string)
+		return accResult{Term: "Panic", Hung: op, Panics: []string{op + ": had not returned after " + waited.Round(100*time.Millisecond).String()}}
+	}
+	return res
+}
+
+func runAccessorsInner(p interface{}, progress *int64, curOp *atomic.Value) accResult {
 	var res accResult
 	modelPanic := false
 	try := func(name string, modelled bool, f func()) {
+		curOp.Store(name)
+		defer atomic.AddInt64(progress, 1)
 		if panicked, msg := guard(f); panicked {
 			res.Panics = append(res.Panics, name+": "+msg)
 			if modelled {
@@ -206,6 +231,10 @@ func accClass(p string) string {
 }
 
 func reportAccessorPanics(r *Run, input string, res accResult) {
+	if res.Hung != "" {
+		r.Fail(strings.Replace(accClass(res.Panics[0]), "accessor-panic/", "accessor-never-returns/", 1), "a read-only operation on a PDU returned by ReadPDU did not return", input, res.Panics[0], "returns normally")
+		return
+	}
 	for _, p := range res.Panics {
 		r.Fail(accClass(p), "a read-only operation on a PDU returned by ReadPDU panicked", input, p, "returns normally")
 	}
@@ -268,6 +297,9 @@ func c11Frame(r *Run, frame []byte, bucket string, fullPath bool, collect *[]*pd
 	}
 	tname := reflect.TypeOf(p).Elem().Name()
 	res := runAccessors(p)
+	if res.Skipped {
+		return
+	}
 	reportAccessorPanics(r, input, res)
 	cls := "decoded"
 	if err != nil {
@@ -305,10 +337,13 @@ func c11History(r *Run, ps []*pdu.DeliverSM, bucket string) {
 		hist[i] = i
 	}
 	obs := runCombinePDUs(ps)
+	if obs.Skipped {
+		return
+	}
 	r.Count(bucket+"/"+fmt.Sprint(fnv64(tableKey(table))), true, bucket)
 	input := histInput(table, hist)
 	if obs.PanicAt >= 0 {
-		r.Fail("combiner-panic", "the multipart combiner panicked on a history of decoded deliver_sm PDUs", input,
+		r.Fail(hangClass(obs, "combiner-panic"), "the multipart combiner panicked or did not return on a history of decoded deliver_sm PDUs", input,
 			fmt.Sprintf("panic at input %d: %s", obs.PanicAt+1, obs.PanicMsg), "returns normally (a value or an ignored segment)")
 		r.Case("combine "+input, fmt.Sprintf("chk_combine %s %s Panic", coqSegTable(table), coqNatList(hist)))
 		return
@@ -401,6 +436,15 @@ func isGSM7(c coding.DataCoding) bool {
 	return e != nil && reflect.TypeOf(e) == reflect.TypeOf(gsm7bit.Packed)
 }
 
+// hangClass: the failure class of a combiner run that did not return normally — "…-panic…" for a panic,
+// the same with "never-returns" in place of "panic" for a call that did not return
+func hangClass(obs combineObs, panicClass string) string {
+	if obs.Hung {
+		return strings.Replace(panicClass, "-panic", "-never-returns", 1)
+	}
+	return panicClass
+}
+
 func udhInput(u map[byte][]byte) string {
 	var parts []string
 	for _, k := range []int{0, 8, 1, 5, 0x24} {
@@ -485,6 +529,9 @@ func corrC11(r *Run) {
 	}
 	r.Sample(map[string]interface{}{"accessor": "ShortMessage.Parse", "data_coding": 8, "message": "d800 (lone surrogate)", "outcome": "text or error, no panic"})
 
+	// ---- 2'. Parse on messages whose decoded text ends in the widest characters of the coding, every length (c11_parse.go)
+	c11ParseWide(r)
+
 	// ---- 3. concatenation elements of every length for IEI 0 and IEI 8 (and both, and next to other elements)
 	lens := append(seqInts(0, 9), 254, 255)
 	var udhs []map[byte][]byte
@@ -536,7 +583,7 @@ func corrC11(r *Run) {
 	for pi, prime := range [][][2]int{{}, {{2, 1}}, {{3, 2}}, {{255, 255}}, {{1, 0}, {0, 0}, {4, 4}}} {
 		var exc []string
 		nPanic := 0
-		for t := 0; t < 256; t++ {
+		for t := 0; t < 256 && !stallsExhausted(); t++ {
 			for s := 0; s < 256; s++ {
 				var ps []*pdu.DeliverSM
 				for _, pr := range prime {
@@ -549,7 +596,7 @@ func corrC11(r *Run) {
 				case obs.PanicAt >= 0:
 					cls = 2
 					nPanic++
-					r.Fail(fmt.Sprintf("combiner-panic/pair/primed=%d", len(prime)), "the combiner panicked on a (total, sequence) pair",
+					r.Fail(hangClass(obs, fmt.Sprintf("combiner-panic/pair/primed=%d", len(prime))), "the combiner panicked or did not return on a (total, sequence) pair",
 						fmt.Sprintf("pairs primed=%v then total=%d sequence=%d", prime, t, s), obs.PanicMsg, "a value or an ignored segment")
 				case len(obs.Trace[len(obs.Trace)-1]) > 0:
 					cls = 1
@@ -599,7 +646,7 @@ func corrC11(r *Run) {
 		}
 		obs := c10One(r, table, tableKey(table), hist, "histories mixing totals under one key", nil, true)
 		if obs.PanicAt >= 0 {
-			r.Fail("combiner-panic/mixed-totals", "the combiner panicked on a history mixing totals under one key", histInput(table, hist), obs.PanicMsg, "segments are stored or ignored")
+			r.Fail(hangClass(obs, "combiner-panic/mixed-totals"), "the combiner panicked or did not return on a history mixing totals under one key", histInput(table, hist), obs.PanicMsg, "segments are stored or ignored")
 		}
 	}
 
